@@ -44,7 +44,10 @@ MANIFEST = dict(
     technique="Rocq/Coq proof (case analysis of the run loop's error arm, invariants) + model/implementation correspondence check + cross-case oracle")
 
 SETUP = ["(define g1 1) (define g2 20) (define g3 300)", "(define c1 (list 4000 50000))", "(define k0 #f) (define kr #f)",
-         "(define (deep n th) (if (= n 0) (th) (+ 1 (deep (- n 1) th))))", "(define (id x) x)"]
+         "(define (deep n th) (if (= n 0) (th) (+ 1 (deep (- n 1) th))))", "(define (id x) x)",
+         # a continuation captured while the VM stack had grown beyond its initial 256 slots (depth >= 42); the probes
+         # re-enter it after the failed forms
+         "(define kd #f)", "(deep 60 (lambda () (call/cc (lambda (c) (set! kd c) 0))))"]
 GLOBALS = ["g1", "g2", "g3"]
 RUNTIME_FAIL = [("unbound", "nope-var"), ("type", "(car 5)"), ("arity", "((lambda (x) x))"), ("user", "(error \"inj\" 1 'z)"),
                 ("eval-syntax", "(eval '(if))"), ("nonproc", "(5 5)"), ("unbound", "(nope-fn 1)"), ("type", "(apply car '(1 2))"),
@@ -296,7 +299,8 @@ WRAPPERS = [
 ]
 PROBES = ["(list g1 g2 g3 c1)", "(deep 3 (lambda () (car 5)))", "(if)", "(deep 2 (lambda () (+ g1 1)))", "(k0 7)",
           "(error \"probe\" g2 (car c1))", "(car", "(kr 0)", "fresh1", "(define fresh1 5) fresh1", "nope-var",
-          "(deep 50 (lambda () (nope-fn)))", "(+ g1 g2 g3)", "(call/cc (lambda (k) (k (cadr c1))))", "(display g1)"]
+          "(deep 50 (lambda () (nope-fn)))", "(+ g1 g2 g3)", "(call/cc (lambda (k) (k (cadr c1))))", "(display g1)",
+          "(kd 1000)", "(+ 1 (kd g1))"]
 
 
 def effects_form(effects, btmpl="%s"):
